@@ -44,8 +44,8 @@
 #endif
 #include TRX_IF_C
 
-const char *__asan_default_options(void) { return "detect_leaks=0:abort_on_error=0:exitcode=99"; }
-const char *__msan_default_options(void) { return "exitcode=99"; }
+const char *__asan_default_options(void) { return "detect_leaks=0:abort_on_error=0:exitcode=99:symbolize=0"; }
+const char *__msan_default_options(void) { return "exitcode=99:symbolize=0"; }
 
 struct osmo_fsm *shim_registered_fsm(void);
 
